@@ -32,6 +32,13 @@ RowsXYq == [1..1 -> [x : {0, 2, NULL}, y : {0, 2}]] \cup [1..2 -> [x : {0, 2, NU
 RGsPairQ == RGs(RowsXYq, {NoPart, 0, 1})
 RGsSingle1 == RGs(RowsX(1), {NoPart, 0, 1})
 RGsPairCols == RGsCols(RowsXYq, {NoPart, 0})
+(* partition values and constants on a DOUBLED scale: the partitions are the even numbers 0 and 2, constants range over  *)
+(* -1..3, so an odd constant lies strictly between (or outside) the partition values - the harness halves both (an int   *)
+(* partition column compared with a non-integer constant) or renders both as text (a text partition column)             *)
+PartsDoubled == {0, 2}
+RGsParts == RGs(RowsX(1), PartsDoubled)
+ProgsPartOnly == {Single(a) : a \in AtomsOn("p", -1..3, Sets2(-1..3))}
+                 \cup {[flat |-> TRUE, groups |-> <<<<a, b>>>>] : a \in AtomsOn("p", {1}, {{0, 1}}), b \in AtomsOn("x", {1}, {{1}})}
 
 (* spec -> code: the (op, constant, min, max) tuples the pruner is asked about, with the transcription's answer *)
 StatPairs == {<<a, b>> \in (Vals \cup {NoVal}) \X (Vals \cup {NoVal}) : a = NoVal \/ b = NoVal \/ a <= b}
